@@ -311,6 +311,14 @@ def forms():
         add(f'SE3.R{ax}', 'theta,t=list', [('t', S, 'ang'), ('v', V3, 'lin')], (lambda f: lambda t, v: f(t, t=L(v)))(Rf), trace=f'tr_SE3_R{ax}_t')
         add(f'SE3.R{ax}', '[a,b]', [('a', S, 'ang'), ('b', S, 'ang')], (lambda f: lambda a, b: _elt(f([a, b]), 1))(Rf), trace=f'tr_SE3_R{ax}_seq')
         add(f'SE3.R{ax}', '[a,0.3]', [('a', S, 'ang')], (lambda f: lambda a: _elt(f([a, 0.3]), 0))(Rf))
+        # several angles WITH the translation option: every value carries t (the numeric and the symbolic route must agree on that)
+        tr_ = getattr(base, 'trot' + ax)
+        add(f'SE3.R{ax}', '[a,b],t=[x,y,z]', [('a', S, 'ang'), ('b', S, 'ang'), ('v', V3, 'lin')], (lambda f: lambda a, b, v: _elt(f([a, b], t=L(v)), 1))(Rf))
+        add(f'SE3.R{ax}', '[a,0.3],t=[1,2,3]', [('a', S, 'ang')], (lambda f: lambda a: _elt(f([a, 0.3], t=[1, 2, 3]), 1))(Rf))
+        add(f'SE3.R{ax}', '[0.2,0.3],t=[x,y,z]', [('v', V3, 'lin')], (lambda f: lambda v: _elt(f([0.2, 0.3], t=L(v)), 1))(Rf),
+            numcall=(lambda g_: lambda v: g_(0.3, t=L(v)))(tr_))
+        add(f'SE3.R{ax}', "[a,b],'deg',t=[x,2,z]", [('a', S, 'deg'), ('b', S, 'deg'), ('x', S, 'lin'), ('z', S, 'lin')],
+            (lambda f: lambda a, b, x, z: _elt(f([a, b], 'deg', t=[x, 2, z]), 0))(Rf))
         add(f'SE3.T{ax}', 'x', [('x', S, 'lin')], Tf, trace=f'tr_SE3_T{ax}')
         add(f'SE3.T{ax}', '[x,y]', [('x', S, 'lin'), ('y', S, 'lin')], (lambda f: lambda x, y: _elt(f([x, y]), 1))(Tf), trace=f'tr_SE3_T{ax}_seq')
         add(f'Twist3.R{ax}', '[theta]', [('t', S, 'ang')], (lambda f: lambda t: f([t]))(Wf), trace=f'tr_Twist3_R{ax}')
